@@ -54,6 +54,10 @@ class Monitor:
         if not isinstance(input_text, str):
             ctx.count("skipped:not a string")
             return True
+        if not all(ch in "\t\n\r" or 0x20 <= ord(ch) <= 0xD7FF or 0xE000 <= ord(ch) <= 0xFFFD or
+                   0x10000 <= ord(ch) <= 0x10FFFF for ch in input_text):
+            ctx.count("skipped:text with characters outside the XML Char production (outside the statement)")
+            return True
         ctx.count("monitor:xml_escape evaluated")
         if not isinstance(result, str):
             ctx.violation("escape result is not text", {"fn": "xml_escape", "text": input_text, "got": result})
@@ -276,6 +280,16 @@ def run(ctx):
         if not ctx.alive():
             break
         cls, text = gen_text(rng)
+        if rng.random() < 0.02:
+            # history: a call the caller gets wrong and survives (text with characters that are not
+            # XML-legal, a non-string) - outside the statement, but it must leave nothing behind
+            from plotink import text_utils as _tu
+            bad = rng.choice(("a<b\x00", "x&y\x0b\"q", "\ud800<", "<\x01>", None, 5, b"<a&b>", ["<"]))
+            try:
+                _tu.xml_escape(bad)
+            except Exception:
+                pass
+            ctx.tag("history: after a failed / out-of-domain call")
         ctx.case(["escape:" + cls], ("e", text), nontrivial=any(ch in text for ch in SPECIALS + "\t\n\r"))
         ctx.sample({"text": text}, tag="escape:" + cls, per_tag=1)
         drive_escape(ctx, text)
@@ -284,6 +298,13 @@ def run(ctx):
         if not ctx.alive():
             break
         cls, value, ms = gen_duration(rng)
+        if rng.random() < 0.01:
+            from plotink import text_utils as _tu
+            try:
+                _tu.format_hms(rng.choice((None, "12", -5, float("nan"), [3], float("inf"))), rng.choice((True, False)))
+            except Exception:
+                pass
+            ctx.tag("history: after a failed / out-of-domain call")
         ctx.case(["duration:" + cls], ("d", value, ms), nontrivial=value >= (10000 if ms else 10))
         ctx.sample({"duration": value, "milliseconds": ms}, tag="duration:" + cls, per_tag=1)
         drive_hms(ctx, value, ms)
@@ -295,6 +316,7 @@ def run(ctx):
                 "hour boundary", "integer seconds", "exact half second (tie)", "random float",
                 "around 10 s (milliseconds)", "minute boundary (milliseconds)"):
         ctx.need("duration:" + cls, 100)
+    ctx.need("history: after a failed / out-of-domain call", 300)
     ctx.need("monitor:xml_escape evaluated", 10_000)
     ctx.need("monitor:read-back (content)", 10_000)
     ctx.need("monitor:read-back (double-quoted attribute)", 10_000)
